@@ -476,7 +476,7 @@ impl StorageEngine {
         // and the persist call. The read lock allows concurrent inserts but
         // blocks KG drops from marking the KG as dropping until we finish.
         let dropping_guard = self.dropping_kgs.read();
-        if dropping_guard.contains(kg) {
+        if dropping_guard.contains(kg) || !self.knowledge_graphs.contains_key(kg) {
             return Err(StorageError::KnowledgeGraphNotFound(kg.to_string()));
         }
 
@@ -503,17 +503,23 @@ impl StorageEngine {
             "persist_append_complete"
         );
 
-        // Release dropping_kgs guard before acquiring KG write lock
-        drop(dropping_guard);
-
-        // Update in-memory state
+        // Update in-memory state. The dropping_kgs guard is held until the update has been
+        // applied: a drop marks the graph in dropping_kgs (which needs the write side of this
+        // lock) before it removes it, so the graph cannot disappear between the persist step
+        // above and the in-memory step below. Releasing the guard in between let a concurrent
+        // drop slip in: the write was already durable, failed here with 'not found', and was
+        // applied after all if the drop did not complete (crash) - a write reported as failed
+        // that the next restart recovers.
         let db = self
             .knowledge_graphs
             .get(kg)
             .ok_or_else(|| StorageError::KnowledgeGraphNotFound(kg.to_string()))?;
 
         let mut db = db.write();
-        db.insert_in_memory(relation, tuples, time)
+        let result = db.insert_in_memory(relation, tuples, time);
+        drop(db);
+        drop(dropping_guard);
+        result
     }
 
     /// Delete binary tuples from a relation in the current knowledge graph
@@ -589,13 +595,10 @@ impl StorageEngine {
         // delete was logged to shard `{kg}:{relation}` and only then failed, and the next
         // restart rediscovered `kg` from that shard as a knowledge graph that never existed
         // (or that had been dropped).
-        if !self.knowledge_graphs.contains_key(kg) {
-            return Err(StorageError::KnowledgeGraphNotFound(kg.to_string()));
-        }
-
-        // Hold dropping_kgs read guard across the persist operation (same as insert)
+        // Hold dropping_kgs read guard across the whole operation (same as insert); the
+        // existence check happens under the guard so that a drop cannot start in between.
         let dropping_guard = self.dropping_kgs.read();
-        if dropping_guard.contains(kg) {
+        if dropping_guard.contains(kg) || !self.knowledge_graphs.contains_key(kg) {
             return Err(StorageError::KnowledgeGraphNotFound(kg.to_string()));
         }
 
@@ -613,17 +616,17 @@ impl StorageEngine {
         self.persist.ensure_shard(&shard)?;
         self.persist.append(&shard, &updates)?;
 
-        // Release dropping_kgs guard before acquiring KG write lock
-        drop(dropping_guard);
-
-        // Update in-memory state
+        // Update in-memory state (dropping_kgs guard still held, see insert_tuples_into)
         let db = self
             .knowledge_graphs
             .get(kg)
             .ok_or_else(|| StorageError::KnowledgeGraphNotFound(kg.to_string()))?;
 
         let mut db = db.write();
-        db.delete_in_memory(relation, &tuples, time)
+        let result = db.delete_in_memory(relation, &tuples, time);
+        drop(db);
+        drop(dropping_guard);
+        result
     }
 
     /// Execute an IQL query on the current knowledge graph
